@@ -16,7 +16,7 @@ RULE = ('case = (metric, configuration, dataset, composition of the dataset into
         'sampler: size/membership/reviewed-count), and the per-example value of a row equals its value in a singleton batch; '
         'non-trivial = >= 2 batches of different size, or >= 2 shards, or an empty shard, or a NaN/ragged row; distinct = '
         'distinct canonical case JSON'
-        '; also: datasets of 127..300 rows (a pattern repeated), NaN rows for MinMaxAndCount, fractional histogram weights, relevant ids as tuple/set/frozenset/dict keys, merge_states over list/tuple/iterator/generator, a second roll-up over the merged-in accumulators')
+        '; also: data shifted by 2**24 for the mean / variance family (tolerance 1e-5 on shifted data), datasets of 127..300 rows (a pattern repeated), NaN rows for MinMaxAndCount, fractional histogram weights, relevant ids as tuple/set/frozenset/dict keys, merge_states over list/tuple/iterator/generator, a second roll-up over the merged-in accumulators')
 ASSUMPTIONS = [
     'classification metrics get an explicit vocab (documented requirement for stable class ids across batches)',
     'Histogram with explicit range or edges; samplers merged with equal seeds; MinMaxAndCount on non-negative input',
